@@ -11,6 +11,8 @@ open Wire Pen PenShow Red
     mq <SPIN|BINARY> <strength> <terms> <choices>        → ok <bqm> | <auxiliaries>
     mqg <SPIN|BINARY|-> <strength> <terms> <choices> <given: SPIN|BINARY|-> <lin> <quad> <off>
                                                          → ok <vartype> <bqm> | <auxiliaries>   (`make_quadratic(..., vartype, bqm)`)
+    hocs <SPIN|BINARY> <terms> <choices> <strength> <keep 0|1> <discard 0|1> <initial_state lab=val,...|-> <response variables> <rows: lab=val,.../lab=val,...|->
+                                                         → ok <initial state handed to the child | -> # <cols|energy|sat>/<cols|energy|sat>...   (`sample_poly` with its options; the child returns the given rows)
     mqcqm <SPIN|BINARY> <terms> <choices>                → ok <objective>|<label hex>:<lhs of the == 0 constraint>|...
     norm <SPIN|BINARY> <terms>                           → ok <normalised polynomial>
     hoc <SPIN|BINARY> <terms> <keep 0|1> <response variables> <row lab=val,...> <reduction u~v>p,...>
@@ -86,6 +88,34 @@ def answer (line : String) : String :=
           ++ String.intercalate "|" (cons.map fun c => toHex c.1 ++ ":" ++ showBq ((Bq.empty vt : Bq Label).apply c.2) false)
       | none => "err"
     | _, _, _ => "bad-op"
+  | ["hocs", vt, terms, choices, strength, keep, discard, init, respVars, rows] =>
+    match vtOf? vt, parseRaw terms, parseChoices choices, parseRat? strength, (csv respVars).mapM parseLabel?,
+          (if init = "-" then some none else (parseTerms init).map some),
+          (if rows = "-" then some [] else (rows.splitOn "/").mapM parseTerms) with
+    | some vt, some raw, some choices, some strength, some rv, some init, some rows =>
+      let rowFns : List (Label → Rat) := rows.map fun row => fun l => ((row.find? (·.1 = l)).map (·.2)).getD 0
+      -- the child: returns the given rows; the initial state it is handed is echoed through the second component
+      let b? := makeQuadratic [] vt strength raw (choices.map fun c => (c.1, c.2.1))
+      match b? with
+      | none => "err"
+      | some (bag, st, auxs) =>
+        let b := (Bq.empty vt : Bq Label).apply bag
+        let red := (List.range st.constraints.length).map (fun i =>
+          ((st.constraints.getD i ((Label.int 0, Label.int 0), Label.int 0)).1,
+           (st.constraints.getD i ((Label.int 0, Label.int 0), Label.int 0)).2, auxs[i]?))
+        let handed : Option (Option (List (Label × Rat))) :=
+          match init with
+          | none => some none
+          | some s0 => if st.constraints.isEmpty then some (some s0) else (expandInitialState b red s0).map some
+        match handed, samplePoly (fun _ _ => { vars := rv, rows := rowFns }) vt raw (choices.map fun c => (c.1, c.2.1)) strength (keep = "1") (discard = "1") init with
+        | some h, some out =>
+          let hs := match h with
+            | none => "-"
+            | some l => String.intercalate "," (sortStrings (l.map fun (p : Label × Rat) => s!"{showLabel p.1}={showRat p.2}"))
+          let showRow (r : HocRow) := String.intercalate "," (sortStrings (r.cols.map fun (c : Label × Rat) => s!"{showLabel c.1}={showRat c.2}")) ++ s!"|{showRat r.energy}|{if r.sat then 1 else 0}"
+          s!"ok {hs} # " ++ String.intercalate "/" (out.map showRow)
+        | _, _ => "err"
+    | _, _, _, _, _, _, _ => "bad-op"
   | ["hoc", vt, terms, keep, respVars, row, red] =>
     match vtOf? vt, parseRaw terms, (csv respVars).mapM parseLabel?, parseTerms row, parseChoices red with
     | some vt, some raw, some rv, some row, some red =>
